@@ -12,6 +12,7 @@ behaviour = {"imm": [emit..], "shape": "none|one|list", "resolve": [[fid, val]..
           | {"proc": [step..]}
 step = ["delay", ticks] | ["delayfx", ticks, [emit..]] | ["wait", fid] | ["waitc", tree]
      | ["resolve", fid, val] | ["cancel", handle] | ["call", [step..]] | ["ret", [emit..]]
+     | ["addhook", handle|None, [emit..]]   (attach a completion hook now: to the process's own event or to the event behind a handle)
 tree = fid | ["any"|"all", [tree, tree, ..]]
 emit = {"dt": ticks (may be negative), "j": ns, "tgt", "kind", "daemon", "h": handle|None, "hooks": [[emit..]..]}
 """
@@ -56,7 +57,7 @@ def tree_strategy(nfut, depth=2):
     return st.tuples(st.sampled_from(["any", "all"]), st.lists(sub, min_size=2, max_size=3)).map(list)
 
 
-def steps_strategy(n, nfut, depth, emits, max_steps=5, futures=True, combinators=True, cancels=True, heavy=False):
+def steps_strategy(n, nfut, depth, emits, max_steps=5, futures=True, combinators=True, cancels=True, heavy=False, hook_emits=None):
     delay = st.tuples(st.just("delay"), st.sampled_from([0, 0, 1, 1, 2, 3])).map(list)
     delayfx = st.tuples(st.just("delayfx"), st.sampled_from([0, 0, 1, 2]), st.lists(emits, min_size=1, max_size=2)).map(list)
     alts = [delay, delay, delayfx]
@@ -71,9 +72,13 @@ def steps_strategy(n, nfut, depth, emits, max_steps=5, futures=True, combinators
                 alts.append(st.tuples(st.just("wait"), st.integers(0, nfut - 1)).map(list))
     if cancels:
         alts.append(st.tuples(st.just("cancel"), st.integers(0, 2)).map(list))
+    if hook_emits is not None:
+        # attach a completion hook late: to the process's own event (None) or to the event behind a handle
+        alts.append(st.tuples(st.just("addhook"), st.one_of(st.none(), st.none(), st.integers(0, 2)),
+                              st.lists(hook_emits, max_size=2)).map(list))
     if depth > 0:
         alts.append(st.tuples(st.just("call"),
-                              steps_strategy(n, nfut, depth - 1, emits, 3, futures, combinators, cancels, heavy)).map(list))
+                              steps_strategy(n, nfut, depth - 1, emits, 3, futures, combinators, cancels, heavy, hook_emits)).map(list))
     return st.lists(st.one_of(*alts), max_size=max_steps)
 
 
@@ -92,7 +97,8 @@ def program_strategy(draw, tier="quick", procs=True, futures=True, combinators=T
         "cancel": st.lists(st.integers(0, 2), max_size=1 if cancels else 0),
     })
     if procs:
-        proc = st.tuples(steps_strategy(n, nfut, 2, emits, 5, futures, combinators, cancels, heavy),
+        hk = emit_strategy(n, False, dts, jitter, 0) if hooks else None
+        proc = st.tuples(steps_strategy(n, nfut, 2, emits, 5, futures, combinators, cancels, heavy, hk),
                          st.lists(emits, max_size=2)).map(lambda t: {"proc": t[0] + [["ret", t[1]]]})
         beh = st.one_of(imm, proc)
     else:
@@ -198,14 +204,14 @@ class RealRun:
                     if shape == "one":
                         return evs[0] if evs else None
                     return evs
-                return self.proc(beh["proc"], fuel, uid)
+                return self.proc(beh["proc"], fuel, uid, event)
 
-            def proc(self, steps, fuel, pid):
-                res = yield from self.steps(steps, fuel, pid, [])
+            def proc(self, steps, fuel, pid, event):
+                res = yield from self.steps(steps, fuel, pid, [], event)
                 run.log.append(("F", self.now.nanoseconds, pid))
                 return res[1] if res is not None else None
 
-            def steps(self, steps, fuel, pid, path):
+            def steps(self, steps, fuel, pid, path, event=None):
                 for i, st_ in enumerate(steps):
                     op = st_[0]
                     tag = path + [i]
@@ -232,8 +238,13 @@ class RealRun:
                             run.futs[st_[1] % nfut].resolve(st_[2])
                     elif op == "cancel":
                         run.cancel(st_[1])
+                    elif op == "addhook":
+                        tgt_ev = event if st_[1] is None else run.handles.get(st_[1])
+                        if tgt_ev is not None:
+                            c = tgt_ev.context if "uid" in tgt_ev.context else (tgt_ev.context.get("metadata") or {})
+                            tgt_ev.add_completion_hook(run._hook(c.get("uid"), list(st_[2]), c.get("fuel", 0)))
                     elif op == "call":
-                        r = yield from self.steps(st_[1], fuel, pid, tag)
+                        r = yield from self.steps(st_[1], fuel, pid, tag, event)
                         if r is not None:
                             return r
                     elif op == "ret":
